@@ -196,8 +196,10 @@ _expanded_cache = {}
 def expanded_text(root):
     """`cargo +nightly rustc --lib --no-default-features -- -Zunpretty=expanded` on a scratch copy of root (cached per process)."""
     import os, shutil, subprocess, tempfile
-    if root in _expanded_cache:
-        return _expanded_cache[root]
+    feats = sorted(f for f in FEATURES if f in ('parallel',))
+    ck = (root, tuple(feats))
+    if ck in _expanded_cache:
+        return _expanded_cache[ck]
     d = tempfile.mkdtemp(prefix='specs-verif.expand.', dir='/var/tmp')
     try:
         for name in ('src', 'Cargo.toml', 'Cargo.lock', 'specs-derive'):
@@ -218,11 +220,11 @@ def expanded_text(root):
                 out.append(line)
         open(os.path.join(d, 'Cargo.toml'), 'w').write('\n'.join(out).replace('autobenches = false', 'autobenches = false\nautoexamples = false\nautotests = false') + '\n')
         env = dict(os.environ, CARGO_NET_OFFLINE='true', CARGO_TARGET_DIR=os.path.join(d, 'target'))
-        p = subprocess.run(['cargo', '+nightly', 'rustc', '--offline', '--lib', '--no-default-features', '--', '-Zunpretty=expanded'],
+        p = subprocess.run(['cargo', '+nightly', 'rustc', '--offline', '--lib', '--no-default-features'] + (['--features', ','.join(feats)] if feats else []) + ['--', '-Zunpretty=expanded'],
                            cwd=d, env=env, capture_output=True, text=True, timeout=1200)
         if p.returncode != 0 or 'mod join' not in p.stdout:
             raise LostAnchor('macro expansion by rustc failed: ' + p.stderr[-400:])
-        _expanded_cache[root] = p.stdout
+        _expanded_cache[ck] = p.stdout
         return p.stdout
     finally:
         shutil.rmtree(d, ignore_errors=True)
